@@ -353,6 +353,30 @@ def build(tier="quick", seed=0):
         pack.add(Obligation(name, lambda tier, name=name, th_gcfg=th_gcfg, cfg=cfg: prove_paths(name, with_clean_config(th_gcfg), lambda p: (p.value[0] is True and p.value[1] is False and p.value[3] is True and (p.value[2] if isinstance(p.value[2], bool) else True), f"grouped records that differ only in _generated under the ignored fields {cfg}: == {p.value[0]}, != {p.value[1]}, equal hashes {p.value[2]} (plain records: == {p.value[3]})"), lambda m, p: {}),
                             replay=lambda w, cfg=cfg: {"call": "c12_grouped_cfg", "args": {"cfg": cfg}}, functions=FU))
 
+    # ---- dictionaries are equal whatever order they were filled in - also when two keys of different kinds have the same text (1 and "1"): equal records hash alike
+    for keys in ((1, "1"), (None, "None"), (True, "True")):
+        name = f"C12.hash[dictlist dictionary with the keys {keys[0]!r} and {keys[1]!r}, filled in two orders]"
+
+        def th_dk(keys=keys):
+            DL = it.call(RD, ["c12/dl", [("dictlist", "dl"), ("varint", "k")]], {})
+            N = it.call(RD, ["c12/dln", [("record", "r")]], {})
+            d1 = {keys[0]: "a", keys[1]: "b", "z": 1}
+            d2 = {"z": 1, keys[1]: "b", keys[0]: "a"}
+            a = it.call(DL, [], {"dl": [d1], "k": 1, "_generated": INSTANT[0]})
+            b = it.call(DL, [], {"dl": [d2], "k": 1, "_generated": INSTANT[0]})
+            na, nb = it.call(N, [], {"r": a, "_generated": INSTANT[0]}), it.call(N, [], {"r": b, "_generated": INSTANT[0]})
+            return it.truth(it.compare("Eq", a, b)), hterm(it.hash_(a)) == hterm(it.hash_(b)), it.truth(it.compare("Eq", na, nb)), hterm(it.hash_(na)) == hterm(it.hash_(nb))
+
+        def judge_dk(p):
+            eq, he, neq, nhe = p.value
+            if eq is not True or neq is not True:
+                return False, f"records whose dictionaries were filled in another order are not equal: {eq}, nested {neq}"
+            if isinstance(he, bool) and isinstance(nhe, bool):
+                return he and nhe, f"equal records hash differently (plain {he}, nested {nhe})"
+            return z3.And(he if not isinstance(he, bool) else z3.BoolVal(he), nhe if not isinstance(nhe, bool) else z3.BoolVal(nhe)), "equal records hash differently"
+
+        pack.add(Obligation(name, lambda tier, name=name, th_dk=th_dk, judge_dk=judge_dk: prove_paths(name, with_clean_config(th_dk), judge_dk, lambda m, p: {}), replay=lambda w, keys=keys: {"call": "c12_dict_keys", "args": {"k0": repr(keys[0]), "k1": repr(keys[1])}}, functions=FU))
+
     # ---- the configuration may be given as ANY iterable of names (the setter's signature says Iterable): also one that can be walked only once
     KINDS = {"list": lambda: ["n", "q"], "tuple": lambda: ("n", "q"), "set": lambda: {"n", "q"}, "frozenset": lambda: frozenset({"n", "q"}), "dict keys": lambda: {"n": 1, "q": 2}.keys(), "generator expression": lambda: (x_ for x_ in ["n", "q"]),
              "iterator": lambda: iter(["n", "q"]), "map object": lambda: map(str, ["n", "q"]), "filter object": lambda: filter(None, ["n", "", "q"])}
